@@ -10,7 +10,7 @@ CfgD(lrI, lrT, did, did0, nad, fixmiu, R) ==
 Cfg(lrI, lrT, did, nad, fixmiu, R) == CfgD(lrI, lrT, did, FALSE, nad, fixmiu, R)
 
 \* code as repaired: all three variants on
-MC_VsFixed == {{"ack", "atn", "did0"}}
+MC_VsFixed == {{"ack", "atn", "did0", "ipni0", "tpni0"}}
 MC_VsAsIs  == {{}}
 
 \* quick: no DID / with DID (repaired MIU), different MIUs per direction
@@ -19,7 +19,7 @@ MC_CfgsFixed == {Cfg(5, 5, FALSE, FALSE, TRUE, 2), Cfg(6, 5, TRUE, FALSE, TRUE, 
 MC_CfgsThorough == MC_CfgsFixed \cup {Cfg(7, 6, FALSE, FALSE, TRUE, 3)}
 MC_CfgsAsIs  == {Cfg(5, 5, FALSE, FALSE, FALSE, 2), Cfg(6, 6, TRUE, FALSE, FALSE, 2)}
 MC_CfgsDid0  == {CfgD(5, 6, TRUE, TRUE, FALSE, TRUE, 2)}
-MC_VsHead    == {{"ack", "atn"}}            \* /repo HEAD: did=0 still open
+MC_VsHead    == {{"ack", "atn", "ipni0"}}            \* /repo HEAD: did=0 still open
 MC_CfgsNoDid == {Cfg(5, 5, FALSE, FALSE, FALSE, 2)}
 MC_Lens  == {1, 2, 3, 5}
 MC_LensT == {1, 2, 3, 4, 5, 6}
